@@ -18,7 +18,21 @@ pub struct Verdict {
 
 /// Build s' (each qualifying `o` -> `zero`, each other `o` -> a safe filler) and compare occurrences.
 pub fn check(ls: &LangSet, s: &str, filler: &str) -> Verdict {
-    let api = ls.api("en");
+    // through the concrete `English` type, then through the runtime-selectable `Language::english()` value: English is
+    // English whichever way the caller holds it
+    let v = check_via(ls, ls.api("en"), s, filler);
+    if v.failure.is_some() || v.n_o == 0 || v.circular {
+        return v;
+    }
+    let mut w = check_via(ls, ls.facades[ls.idx("en")].as_ref(), s, filler);
+    if let Some(f) = w.failure.take() {
+        w.failure = Some(format!("through Language::english(): {}", f));
+        return w;
+    }
+    v
+}
+
+pub fn check_via(ls: &LangSet, api: &dyn crate::api::Api, s: &str, filler: &str) -> Verdict {
     let toks = api.tokens(s);
     let sig: Vec<usize> = (0..toks.len()).filter(|&i| !toks[i].text.chars().all(char::is_whitespace)).collect();
     let mut v = Verdict { n_o: 0, qualifying: 0, circular: false, failure: None };
